@@ -29,7 +29,9 @@ def gen_tree(rng, depth, name):
         elif r < 0.45:
             kids.append(('l', n, rng.choice(["a", "sub", "nowhere"])))
         else:
-            kids.append(('f', n, rng.choice([0, 5, 100, 101, 2000])))
+            # a third of the files are (where possible) created as HARD LINKS to an earlier file of the same size:
+            # two paths, one inode - each path is still an entry of its own
+            kids.append(('f', n, rng.choice([0, 5, 100, 101, 2000]), rng.random() < 0.35))
     return ('d', name, kids)
 
 
@@ -41,15 +43,19 @@ def tree_sx(t):
     return ['d', hx(t[1])] + [tree_sx(k) for k in t[2]]
 
 
-def world_nodes(t, prefix=""):
+def world_nodes(t, prefix="", seen=None):
+    seen = {} if seen is None else seen
     p = prefix + t[1]
     if t[0] == 'f':
+        if len(t) > 3 and t[3] and t[2] in seen:
+            return [dict(t="h", p=p, to=seen[t[2]])]
+        seen.setdefault(t[2], p)
         return [dict(t="f", p=p, c=("00" * t[2]), m=0o644)]
     if t[0] == 'l':
         return [dict(t="l", p=p, to=t[2])]
     out = [dict(t="d", p=p, m=0o755)]
     for k in t[2]:
-        out += world_nodes(k, p + "/")
+        out += world_nodes(k, p + "/", seen)
     return out
 
 
